@@ -86,13 +86,17 @@ type srvRec struct {
 	ID     string      `json:"rpc_id,omitempty"`
 	Served bool        `json:"on_served_path"`
 	Status int         `json:"status_answered"`
+	Issued string      `json:"session_id_issued,omitempty"` // the session id the answer to this request handed out
 }
+
+// stream is one open event stream; only the most recently opened one is written to.
+type stream struct{ ch chan string }
 
 type refServer struct {
 	client    string
 	path      string // Streamable: MCP path; legacy: connect path
 	msgPath   string // legacy: message path announced in the endpoint event
-	sessionID string
+	sessionID string // prefix of the session ids: every initialize (legacy: every connect) is handed a fresh one
 	ts        *httptest.Server
 	baseURL   string
 	quit      chan struct{}
@@ -101,13 +105,23 @@ type refServer struct {
 	recs    []*srvRec
 	fail503 int         // answer the next fail503 requests with 503 (recorded like any other)
 	streams int         // listening streams opened so far
-	push    chan string // raw SSE frames for the (single) listening stream
+	cur     *stream     // the most recently opened stream: server-issued frames go there
+	issued  int         // session ids handed out so far
 	evN     int
+}
+
+// issue hands out a fresh session id for the request rec.
+func (s *refServer) issue(rec *srvRec) string {
+	s.mu.Lock()
+	defer s.mu.Unlock()
+	s.issued++
+	rec.Issued = fmt.Sprintf("%s-%d", s.sessionID, s.issued)
+	return rec.Issued
 }
 
 func newRefServer(client, path, msgPath, sessionID string) *refServer {
 	s := &refServer{client: client, path: path, msgPath: msgPath, sessionID: sessionID,
-		quit: make(chan struct{}), push: make(chan string, 256)}
+		quit: make(chan struct{})}
 	return s
 }
 
@@ -189,6 +203,25 @@ func (s *refServer) streamOpen() bool {
 	return s.streams > 0
 }
 
+// streamSince reports whether a stream GET that arrived at index from or later has been answered,
+// and whether the answer opened a stream.
+func (s *refServer) streamSince(from int) (answered, open bool) {
+	s.mu.Lock()
+	defer s.mu.Unlock()
+	for _, r := range s.recs {
+		if r.N >= from && r.Method == http.MethodGet && r.Status != 0 {
+			return true, r.Status == http.StatusOK
+		}
+	}
+	return false, false
+}
+
+func (s *refServer) pending503() int {
+	s.mu.Lock()
+	defer s.mu.Unlock()
+	return s.fail503
+}
+
 // answered reports whether an answer (result or error) with the given JSON-RPC id has arrived on any path.
 func (s *refServer) answered(id string) bool {
 	s.mu.Lock()
@@ -211,7 +244,11 @@ func (s *refServer) pushFrame(msg string) {
 	s.mu.Lock()
 	s.evN++
 	n := s.evN
+	st := s.cur
 	s.mu.Unlock()
+	if st == nil {
+		return
+	}
 	var frame string
 	if s.client == clLegacy {
 		frame = "event: message\ndata: " + msg + "\n\n"
@@ -219,7 +256,7 @@ func (s *refServer) pushFrame(msg string) {
 		frame = fmt.Sprintf("id: ev-%d\ndata: %s\n\n", n, msg)
 	}
 	select {
-	case s.push <- frame:
+	case st.ch <- frame:
 	case <-s.quit:
 	}
 }
@@ -327,7 +364,7 @@ func (s *refServer) ServeHTTP(w http.ResponseWriter, r *http.Request) {
 		}
 		w.Header().Set("Content-Type", "application/json")
 		if m.Method == "initialize" {
-			w.Header().Set("Mcp-Session-Id", s.sessionID)
+			w.Header().Set("Mcp-Session-Id", s.issue(rec))
 		}
 		s.setStatus(rec, http.StatusOK)
 		w.WriteHeader(http.StatusOK)
@@ -349,8 +386,12 @@ func (s *refServer) serveStream(w http.ResponseWriter, r *http.Request, rec *srv
 	w.Header().Set("Content-Type", "text/event-stream")
 	w.Header().Set("Cache-Control", "no-cache")
 	w.WriteHeader(http.StatusOK)
+	st := &stream{ch: make(chan string, 256)}
+	s.mu.Lock()
+	s.cur = st // before the endpoint event: the client's first POST may overtake the bookkeeping below
+	s.mu.Unlock()
 	if s.client == clLegacy {
-		_, _ = io.WriteString(w, "event: endpoint\ndata: "+s.msgPath+"?sessionId="+s.sessionID+"\n\n")
+		_, _ = io.WriteString(w, "event: endpoint\ndata: "+s.msgPath+"?sessionId="+s.issue(rec)+"\n\n")
 	}
 	fl.Flush()
 	// status and stream count become visible together: whoever sees the answered GET also sees the open stream
@@ -364,7 +405,7 @@ func (s *refServer) serveStream(w http.ResponseWriter, r *http.Request, rec *srv
 			return
 		case <-s.quit:
 			return
-		case f := <-s.push:
+		case f := <-st.ch:
 			if _, err := io.WriteString(w, f); err != nil {
 				return
 			}
